@@ -42,7 +42,8 @@
 //! Signatures. `eval`: (layer, driver, link, relay class, socket buffers,
 //! duplex mode, size class[kinds], closer). Violations:
 //! `C15/ws/<rule>/<layer>/<role>/<phase>/<driver>/relay=<class>`; the symmetric
-//! `hang-mutual-backpressure` only carries layer and duplex mode.
+//! `hang-mutual-backpressure` only carries layer and duplex mode, other hangs
+//! in the full-duplex data phase `C15/ws/<rule>/<layer>/<duplex|duplex-tasks>`.
 //!
 //! Hangs are decided by **logical quiescence**, never by time: when nothing
 //! moved for a while the supervisor asks the relay (probe/ack) whether it is
@@ -1552,6 +1553,12 @@ fn violation_sig(case: &Case, f: &Failure) -> String {
             if case.duplex { "duplex" } else { "half" }
         );
         // (joined and spawned halves share the signature: same root cause)
+    }
+    if f.rule.starts_with("hang-") && f.phase == "duplex" {
+        // full-duplex data phase: which side is named, the driver and the
+        // relay class are incidental; the mode (halves joined in one task or
+        // in two tasks) is not
+        return format!("C15/ws/{}/{}/{}", f.rule, case.layer(), mode_str(case));
     }
     format!(
         "C15/ws/{}/{}/{}/{}/{}/relay={}",
